@@ -87,6 +87,14 @@ func genBadTerm(rt *rapid.T, f int, rc int) string {
 			}
 		}
 		if rapid.IntRange(0, 3).Draw(rt, "inStep") == 0 {
+			// a step is a number: also a word that IS a name of this very field (a month in the month field) is none
+			if (f == refcron.FMonth || f == refcron.FDow) && rapid.Bool().Draw(rt, "ownNameAsStep") {
+				ns := monthNames
+				if f == refcron.FDow {
+					ns = dowNames
+				}
+				bad = recase(rt, rapid.SampledFrom(ns).Draw(rt, "stepName"))
+			}
 			return rapid.SampledFrom([]string{"*", num(lo), num(lo) + "-" + num(hi)}).Draw(rt, "base") + "/" + bad
 		}
 		return withForm(bad, rapid.Bool().Draw(rt, "high"))
@@ -242,6 +250,13 @@ func TestRefusalSweep(t *testing.T) {
 			}
 		}
 		try(f, "*/0", "zero-step")
+		// names of the field (and of the other named field) in the step position
+		for _, n := range append(append([]string{}, monthNames...), dowNames...) {
+			for _, form := range []string{"*/%s", fmt.Sprint(lo) + "/%s", fmt.Sprintf("%d-%d", lo, hi) + "/%s"} {
+				try(f, fmt.Sprintf(form, n), "non-numeric")
+				try(f, fmt.Sprintf(form, strings.ToUpper(n)), "non-numeric")
+			}
+		}
 		for v := hi + 1; v <= 130; v++ {
 			try(f, fmt.Sprint(v), "out-of-range")
 			try(f, fmt.Sprintf("%d-%d", lo, v), "out-of-range")
